@@ -168,6 +168,17 @@ def local_env(fn_node, upto=None):
             for t in ast.walk(n.target):
                 if isinstance(t, ast.Name):
                     counts[t.id] = counts.get(t.id, 0) + 2
+        elif isinstance(n, ast.Assign) and len(n.targets) == 1 and isinstance(n.targets[0], (ast.Tuple, ast.List)) \
+                and isinstance(n.value, (ast.Tuple, ast.List)) and len(n.value.elts) == len(n.targets[0].elts) \
+                and all(isinstance(t, ast.Name) for t in n.targets[0].elts) \
+                and not any(isinstance(v, ast.Starred) for v in n.value.elts):
+            # `a, b = x, y` binds each name once to its own expression (the right-hand sides are all evaluated first, which
+            # only matters when one of them reads a name bound on the left: such a name is then counted as rebound)
+            lhs = {t.id for t in n.targets[0].elts}
+            reads = {x.id for v in n.value.elts for x in ast.walk(v) if isinstance(x, ast.Name)}
+            for t, v in zip(n.targets[0].elts, n.value.elts):
+                counts[t.id] = counts.get(t.id, 0) + (2 if lhs & reads else 1)
+                vals[t.id] = v
         elif isinstance(n, ast.Assign):
             for t in n.targets:
                 for x in ast.walk(t):
